@@ -12,15 +12,19 @@ WNAMES = ['W_SameNameTwice', 'W_LostLink', 'W_DupFound', 'W_ScanBeyondMapping', 
           'W_ReserveRaced', 'W_ValueRaced', 'W_UnwrittenSeen', 'W_KilledAfterReserve', 'W_KilledAfterWrite', 'W_KilledMidAdd']
 
 
-def fam(name, procs, init_slots):
+def fam(name, procs, init_slots, warm=None, warmval=0, maxval=1000):
     # a process may give a record up and allocate another one (repaired F16): one spare slot per process
-    return dict(name=name, procs=procs, init=init_slots, maxslots=init_slots + 2 * len(procs))
+    # warm: a counter whose record exists before the race, with a value `maxval - warmval` short of the
+    # saturation limit (the model counts relative to 2^64-1-maxval)
+    return dict(name=name, procs=procs, init=init_slots, maxslots=init_slots + 2 * len(procs) + (1 if warm else 0),
+                warm=warm, warmval=warmval, maxval=maxval)
 
 
 # Scripted scenarios for windows that need more processes than TLC can explore exhaustively: each entry is a
 # label-aligned script ("task>>fn|kind|k" = run the task until it is suspended for the k-th time in front of that
 # operation).  The recorded traces are still validated against CounterFile.tla and judged by CounterFileObs.tla.
-DEEP = dict(name='deepremap', procs=[('pA', 'n1'), ('pC', 'n3'), ('pB', 'n2'), ('pD', 'n6'), ('pE', 'n7'), ('pF', 'n4')], init=5, maxslots=5 + 8, scripted=True)
+DEEP = dict(name='deepremap', procs=[('pA', 'n1'), ('pC', 'n3'), ('pB', 'n2'), ('pD', 'n6'), ('pE', 'n7'), ('pF', 'n4')], init=5, maxslots=5 + 8, scripted=True,
+            warm=None, warmval=0, maxval=1000)
 DEEP_SCRIPTS = [
     # pA looks n1 up with a mapping that is two growths behind: the file is extended twice while pA is inside
     # newCounter's remap loop (second failure of the lookup after the first remap)
@@ -44,12 +48,16 @@ def families():
         # the second record lands on a page the first process has not mapped
         fam('collide2edge', [('p1', 'n1'), ('p2', 'n2')], 5),
         fam('same2edge', [('p1', 'n1'), ('p2', 'n1')], 5),
+        # value addition at the saturation limit: the record exists with a value one short of the limit;
+        # the first add reaches it, the second must stick (never wrap, never decrease, also when killed mid-add)
+        fam('sat2', [('p1', 'n1'), ('p2', 'n1')], 1, warm='n1', warmval=2, maxval=3),
     ]
     big = [
         fam('same3', [('p1', 'n1'), ('p2', 'n1'), ('p3', 'n1')], 3),
         fam('collide3', [('p1', 'n1'), ('p2', 'n2'), ('p3', 'n1')], 3),
         fam('mixed3', [('p1', 'n1'), ('p2', 'n2'), ('p3', 'n3')], 2),
         fam('collide3free', [('p1', 'n1'), ('p2', 'n2'), ('p3', 'n2')], 1),
+        fam('sat3', [('p1', 'n1'), ('p2', 'n1'), ('p3', 'n1')], 1, warm='n1', warmval=2, maxval=4),
     ]
     return small, big
 
@@ -69,8 +77,8 @@ MCBucketOf == ("n1" :> "b1" @@ "n2" :> "b1" @@ "n3" :> "b2" @@ "n4" :> "b1" @@ "
 
 def mc_cfg(f, spec='Spec', invariants=(), props=(), kill=True, deadlock=False):
     s = ('SPECIFICATION %s\nCONSTANTS\n Procs <- MCProcs\n NameOf <- MCNameOf\n Names <- MCNames\n BucketOf <- MCBucketOf\n'
-         ' Buckets = {"b1", "b2", "b3"}\n K = %d\n InitSlots = %d\n MaxSlots = %d\n MaxPages = 8\n MaxTries = 10\n AllowKill = %s\n FixF16 = TRUE\n') % (
-        spec, K, f['init'], f['maxslots'], 'TRUE' if kill else 'FALSE')
+         ' Buckets = {"b1", "b2", "b3"}\n K = %d\n InitSlots = %d\n MaxSlots = %d\n MaxPages = 8\n MaxTries = 10\n AllowKill = %s\n FixF16 = TRUE\n MaxVal = %d\n WarmName = "%s"\n WarmVal = %d\n') % (
+        spec, K, f['init'], f['maxslots'], 'TRUE' if kill else 'FALSE', f['maxval'], f['warm'] or 'none', f['warmval'])
     if invariants:
         s += 'INVARIANTS ' + ' '.join(invariants) + '\n'
     if props:
@@ -178,7 +186,8 @@ def run(ctx):
     def add_run(f, sched, finish, why):
         rid = len(runs) + 1
         runs.append(dict(id=rid, family=f['name'], procs=[dict(name=p[0], ctr=p[1]) for p in f['procs']], initSlots=f['init'],
-                         maxSlots=f['maxslots'], schedule=sched, finish=finish, seed=rng.randrange(1 << 30), trace=True))
+                         maxSlots=f['maxslots'], schedule=sched, finish=finish, seed=rng.randrange(1 << 30), trace=True,
+                         warm=f['warm'] or '', warmVal=f['warmval'], maxVal=f['maxval'] if f['warm'] else 0))
         runfam[rid] = (f, why)
 
     oneshot = ['OneShot(i, W) == IF W /\\ TLCGet(i) = 0 THEN TLCSet(i, 1) /\\ FALSE ELSE TRUE', 'ASSUME \\A i \\in 1..40 : TLCSet(i, 0)',
@@ -301,6 +310,9 @@ def run(ctx):
             for p, fin in res['finished'].items():
                 if fin and not res.get('pending', {}).get(p):
                     surv[procs[p]] += 1
+            fk = runfam[k][0]
+            if fk['warm']:
+                surv[fk['warm']] = min(surv[fk['warm']] + fk['warmval'], fk['maxval'])
             last['survivors'] = surv
     chunk = 30000
     for i in range(0, len(lines), chunk):
